@@ -203,6 +203,13 @@ def standard_main(prop: str, clauses: List[str], technique: str, rule: str, nont
                 tid += 1
                 items[tid] = {'tid': tid, 'route': route, 'doc': dm['doc'], 'model': dm['model'], 'fseed': None, 'pinned': {},
                               'seed': seed}
+        # the exhaustive per-element feature products (GenProduct.tla), parsed and built
+        pm = docs.product_models(rep, scale=0.5)
+        for pid, dm in pm:
+            for route in ('parsed', 'built'):
+                tid += 1
+                items[tid] = {'tid': tid, 'route': route, 'doc': dm['doc'], 'model': dm['model'], 'fseed': None, 'pinned': {}, 'seed': pid}
+        rep.notes['product_models'] = len(pm)
         if extra_items:
             for it in extra_items(rep):
                 tid += 1
